@@ -212,6 +212,17 @@ W(cmp_ne) { return as_fixed(a) != as_fixed(b); }
 W(shl) { return (as_fixed(a) << static_cast<int>(b)).v; }
 W(shr) { return (as_fixed(a) >> static_cast<int>(b)).v; }
 W(and_) { return (as_fixed(a) & as_fixed(b)).v; }
+// shift counts of other static types than int (the operators are declared for int; these convert implicitly)
+W(shl_u32) { return (as_fixed(a) << static_cast<unsigned>(b)).v; }
+W(shr_u32) { return (as_fixed(a) >> static_cast<unsigned>(b)).v; }
+W(shl_u8) { return (as_fixed(a) << static_cast<uint8_t>(b)).v; }
+W(shr_u8) { return (as_fixed(a) >> static_cast<uint8_t>(b)).v; }
+W(shl_sz) { return (as_fixed(a) << static_cast<std::size_t>(b)).v; }
+W(shr_sz) { return (as_fixed(a) >> static_cast<std::size_t>(b)).v; }
+W(shl_i64) { return (as_fixed(a) << b).v; }
+W(shr_i64) { return (as_fixed(a) >> b).v; }
+W(shl_i16) { return (as_fixed(a) << static_cast<short>(b)).v; }
+W(shr_i16) { return (as_fixed(a) >> static_cast<short>(b)).v; }
 W(ceil) { UNUSED_B; return ceil(as_fixed(a)).v; }
 W(floor) { UNUSED_B; return floor(as_fixed(a)).v; }
 W(limits_max) { (void)a; UNUSED_B; return std::numeric_limits<fixed_t>::max().v; }
@@ -247,6 +258,43 @@ W_RT(sin_angle_tab) { UNUSED_B; return sin_angle_tab(static_cast<uint16_t>(a)).v
 W_RT(cos_angle_tab) { UNUSED_B; return cos_angle_tab(static_cast<uint16_t>(a)).v; }
 W_RT(tan_tab) { UNUSED_B; return tan_tab(static_cast<uint8_t>(a)).v; }
 W_RT(square_root_tab) { UNUSED_B; return square_root_tab(static_cast<uint8_t>(a)); }
+
+// ---------------------------------------------------------------- calls made during static initialisation
+// The compiled table functions are called from the constructor of a namespace-scope object of THIS translation unit,
+// which is linked before fixed_math.cc, i.e. before the library's own dynamic initialisers (if it ever gets any) run.
+// sinit_<fn>(i) returns what the call returned then; the monitor compares it with the same call made now.
+#if !defined(VERIF_KERNELS_ONLY)
+namespace {
+constexpr int64_t SINIT_ARGS[12] = { 0, 1, 65536, -65536, 30 * 65536, -45, 45, 360, 123456789, -987654321, 400, 200000 };
+struct sinit_probe
+  {
+  int64_t sin_ap[12], cos_ap[12], sqrt_ap[12], hyp_ap[12], atan_ix[12], sin_tab[12], tan_tb[12], sq_tb[12];
+  sinit_probe() noexcept
+    {
+    for(int i = 0; i < 12; ++i)
+      {
+      int64_t x = SINIT_ARGS[i];
+      sin_ap[i] = sin_angle_aprox(static_cast<int32_t>(x)).v; cos_ap[i] = cos_angle_aprox(static_cast<int32_t>(x)).v;
+      sqrt_ap[i] = sqrt_aprox(as_fixed(x)).v; hyp_ap[i] = hypot_aprox(as_fixed(x), as_fixed(SINIT_ARGS[(i + 5) % 12])).v;
+      atan_ix[i] = atan_index_aprox(as_fixed(x)).v; sin_tab[i] = sin_angle_tab(static_cast<uint16_t>((x < 0 ? -x : x) % 361)).v;
+      tan_tb[i] = tan_tab(static_cast<uint8_t>(x)).v; sq_tb[i] = square_root_tab(static_cast<uint8_t>(x));
+      }
+    }
+  };
+const sinit_probe g_sinit;
+}
+#define SINIT_ENTRY(name, field, now) \
+  W_RT(sinit_##name) { UNUSED_B; return g_sinit.field[static_cast<size_t>(a) % 12]; } \
+  W_RT(snow_##name) { UNUSED_B; int i = static_cast<int>(static_cast<size_t>(a) % 12); int64_t x = SINIT_ARGS[i]; (void)x; return now; }
+SINIT_ENTRY(sin_angle_aprox, sin_ap, sin_angle_aprox(static_cast<int32_t>(x)).v)
+SINIT_ENTRY(cos_angle_aprox, cos_ap, cos_angle_aprox(static_cast<int32_t>(x)).v)
+SINIT_ENTRY(sqrt_aprox, sqrt_ap, sqrt_aprox(as_fixed(x)).v)
+SINIT_ENTRY(hypot_aprox, hyp_ap, hypot_aprox(as_fixed(x), as_fixed(SINIT_ARGS[(i + 5) % 12])).v)
+SINIT_ENTRY(atan_index_aprox, atan_ix, atan_index_aprox(as_fixed(x)).v)
+SINIT_ENTRY(sin_angle_tab, sin_tab, sin_angle_tab(static_cast<uint16_t>((x < 0 ? -x : x) % 361)).v)
+SINIT_ENTRY(tan_tab, tan_tb, tan_tab(static_cast<uint8_t>(x)).v)
+SINIT_ENTRY(square_root_tab, sq_tb, square_root_tab(static_cast<uint8_t>(x)))
+#endif
 
 // ---------------------------------------------------------------- literals, stream
 W(udl_int) { UNUSED_B; return fixedmath::operator""_fix(static_cast<unsigned long long>(a)).v; }
@@ -299,12 +347,14 @@ INT_TYPE(unsigned long long, ull)
 #define VERIF_HAVE_I128 1
 namespace { constexpr __int128 arg_i128(int64_t b) noexcept { int sh = static_cast<int>(b & 0x7f); if(sh > 70) sh = 70; return static_cast<__int128>(b >> 8) * (static_cast<__int128>(1) << sh); } }
 W(i128_supported) { (void)a; UNUSED_B; return 1; }
+W(a2r_i128) { return angle_to_radians(arg_i128(b) + a).v; } // angle = (b >> 8) * 2^(b & 0x7f) + a
 W(div_fi128) { return (as_fixed(a) / arg_i128(b)).v; }
 W(diveq_fi128) { fixed_t x{as_fixed(a)}; x /= arg_i128(b); return x.v; }
 W(add_fi128) { return (as_fixed(a) + arg_i128(b)).v; }
 W(ctor_i128) { (void)a; return fixed_t{arg_i128(b)}.v; }
 #else
 W(i128_supported) { (void)a; UNUSED_B; return 0; }
+W(a2r_i128) { (void)a; UNUSED_B; return 0; }
 W(div_fi128) { (void)a; UNUSED_B; return 0; }
 W(diveq_fi128) { (void)a; UNUSED_B; return 0; }
 W(add_fi128) { (void)a; UNUSED_B; return 0; }
@@ -359,14 +409,16 @@ extern "C" const w_entry w_entries[] = {
   E_KSCALAR(i2) E_KSCALAR(i3) E_KSCALAR(i4) E_KSCALAR(im1) E_KSCALAR(i0) E_KSCALAR(i65536) E_KSCALAR(l2p20) E_KSCALAR(u16_8) E_KSCALAR(lprime) E_KSCALAR(u64big)
   E(addeq_self) E(subeq_self) E(muleq_self) E(diveq_self) E(addeq_ref_self) E(subeq_ref_self) E(muleq_ref_self) E(diveq_ref_self)
   E(neg) E(abs) E(isnan) E(cmp_lt) E(cmp_le) E(cmp_gt) E(cmp_ge) E(cmp_eq) E(cmp_ne)
-  E(shl) E(shr) E(and_) E(ceil) E(floor)
+  E(shl) E(shr) E(and_) E(shl_u32) E(shr_u32) E(shl_u8) E(shr_u8) E(shl_sz) E(shr_sz) E(shl_i64) E(shr_i64) E(shl_i16) E(shr_i16) E(ceil) E(floor)
   E(limits_max) E(limits_lowest) E(limits_nan) E(limits_one) E(const_phi) E(const_pidiv2)
   E(sqrt) E(sqrt_abacus) E(sqrt_std_math) E(hypot)
   E(sin) E(cos) E(tan) E(atan) E(atan2) E(asin) E(acos) E(sqrt_constexpr_available) E(cplusplus)
   E(sin_angle_aprox) E(cos_angle_aprox) E(sqrt_aprox) E(hypot_aprox) E(atan_index_aprox) E(atan_aprox)
   E(sin_angle_tab) E(cos_angle_tab) E(tan_tab) E(square_root_tab)
   E(udl_int) E(udl_float) E(ostream)
-  E(i128_supported) E(div_fi128) E(diveq_fi128) E(add_fi128) E(ctor_i128)
+#define E_SINIT(n) E(sinit_##n) E(snow_##n)
+  E_SINIT(sin_angle_aprox) E_SINIT(cos_angle_aprox) E_SINIT(sqrt_aprox) E_SINIT(hypot_aprox) E_SINIT(atan_index_aprox) E_SINIT(sin_angle_tab) E_SINIT(tan_tab) E_SINIT(square_root_tab)
+  E(i128_supported) E(a2r_i128) E(div_fi128) E(diveq_fi128) E(add_fi128) E(ctor_i128)
   E_INT(i8) E_INT(i16) E_INT(i32) E_INT(i64) E_INT(u8) E_INT(u16) E_INT(u32) E_INT(u64) E_INT(ll) E_INT(ull)
   E_COMMON(f32) E(fp2f_f32) E(f2fp_f32) E_EQ(f32)
   E(ctor_f64) E(a2f_f64) E(mkf_f64) E(cast_f64) E(f2a_f64) E(fp2f_f64) E(f2fp_f64) E_MIXED(f64)
